@@ -397,6 +397,7 @@ void process_msg(void)
 	if(unlikely(flags && lp->p.early_antis && check_early_anti_messages(&lp->p, msg)))
 		return;
 
+	VERIF_YIELD(33);
 	if(unlikely(lp->p.bound >= msg->dest_t && msg_is_before(msg, array_peek(lp->p.p_msgs))))
 		handle_straggler_msg(lp, msg);
 
